@@ -213,14 +213,20 @@ package handlers
 //@   at return 3 assert recorder.status < 400
 //@   at return 2 assert recorder.status >= 400 && ghost(w).started && (!old(ghost(w).started) ==> ghost(w).status == recorder.status)
 
+//@ interface headerGetter.Header()
+//@   ensures true
 //@ func (a *Application) copyOllaHeaders
 //@   property C05
-//@   trusted
+//@   safety
+//@   requires from != nil && to != nil
 //@   modifies ghost(to).hdr[all]
+//@   loop 1 invariant otherMapsUnchanged(ghost(to).hdr)
 //@ func (a *Application) setModelHeaderIfMissing
 //@   property C05
-//@   trusted
+//@   safety
+//@   requires w != nil
 //@   modifies ghost(w).hdr[all]
+//@   ensures model != "" ==> len(ghost(w).hdr["X-Olla-Model"]) > 0
 //@ func (a *Application) extractAndLogBackendError
 //@   property C05
 //@   safety
@@ -340,11 +346,13 @@ package handlers
 // request bookkeeping at the top of every proxy-like handler (no client output, no engine call)
 //@ func (a *Application) initializeProxyRequest
 //@   property C05
-//@   trusted
+//@   safety
+//@   requires a != nil && a.logger != nil && r != nil && r.URL != nil
 //@   ensures res != nil && fresh(res) && res.stats != nil && res.requestLogger != nil
 //@ func (a *Application) setupRequestContext
 //@   property C05
-//@   trusted
+//@   safety
+//@   requires r != nil && stats != nil
 //@   ensures res1 != nil && res1.URL == r.URL && res1.Body == r.Body
 //@ func (a *Application) analyzeRequest
 //@   property C05
